@@ -52,6 +52,8 @@ func main() {
 		os.Exit(runFaultBsEnum(os.Args[2:]))
 	case "fault-bs-child":
 		os.Exit(runFaultBsChild(os.Args[2:]))
+	case "uptrace-prep":
+		os.Exit(runUptracePrep(os.Args[2:]))
 	case "hashfuzz":
 		os.Exit(runHashFuzz(os.Args[2:]))
 	case "reader-replay":
